@@ -238,7 +238,7 @@ def enum_cases(rng, thorough):
         (1, ["pre w " + (le32(8) + le32(MAGIC)).hex(), "pre w " + (le32(8) + le32(MAGIC)).hex() * 508], [8],
          ["r read 8192 0", "r reclaim"], 2),
         (0, ["pre w " + "a1" * 4076, "pre r read 8192", "pre w " + (le32(4) + le32(DEAD)).hex(),
-             "pre w " + (le32(8) + le32(MAGIC)).hex() * 508], [5, 0], ["r peek 0", "r reclaim"], 2),
+             "pre w " + (le32(8) + le32(MAGIC)).hex() * 508], [5, 0], ["r peek 0", "r reclaim", "r reclaim"], 2),
     ]
     if not thorough:
         mixes = [(ns, pro, wl, rc, 1) for ns, pro, wl, rc, _ in mixes]
